@@ -164,7 +164,7 @@ class ChildrenOrder3(ChildrenOrder):
     tier = "thorough"
 
 
-ChildrenOrder.tier = "thorough"
+ChildrenOrder.tier = "quick"  # 0.6 s since the overlap callee contract
 K3 = ("coding", "noncoding", "feature")
 CASES = [QueryByPosition(True, ("coding", "feature")), QueryByPosition(False, ("coding", "feature")),
          QueryByPosition(True, ("noncoding", "coding")), QueryByPosition(False, ("mixed", "noncoding")),
